@@ -10,6 +10,12 @@ list `Spec.LruRef.step`.
 namespace MdsVerif.Drv.C08
 open MdsVerif.Drv MdsVerif.Model.Cache MdsVerif.Spec
 
+/-- insertion sort by a natural-number key (tiny lists) -/
+def isortBy {α : Type} (key : α → Nat) (l : List α) : List α :=
+  l.foldl (fun acc x =>
+    let (a, b) := acc.span (fun y => key y ≤ key x)
+    a ++ x :: b) []
+
 structure St where
   c : Cache := {}
   r : LruRef.R := {}
@@ -64,7 +70,21 @@ def step (s : St) (toks : List String) (impl : String) : St × String × String 
         let ev := (parseEv (field impl "ev"))
         s!"r={field impl "r"};len={field impl "len"};size={field impl "size"};keys={field impl "keys"};ev={fmtEv (isort ev)}"
       else impl
-    ({ s with c := { c' with evicted := [] }, r := { r' with evicted := [] } }, m, verdict (sp == impl') s!"C08 reference LRU: {sp}")
+    -- Classify a mismatch.  Finding F2 (a heap disturbed by Remove yields a non-LRU victim) can only change WHICH
+    -- entries a Put evicts: result, Len, Size and the NUMBER of callbacks still agree with the reference.  Only
+    -- such a line is worded `LRU-victim` (the wording known_findings.json matches); anything else is `reference`.
+    let same (k : String) := field sp k == field impl' k
+    let nEv (o : String) := (parseEv (field o "ev")).length
+    let victimOnly := same "r" && same "len" && same "size" && nEv sp == nEv impl' && (match op with | some (.put _ _) => true | _ => false)
+    let v := if sp == impl' then "ok"
+      else if victimOnly then s!"bad C08 LRU-victim differs from the reference LRU: {sp}"
+      else s!"bad C08 reference LRU: {sp}"
+    -- after a victim mismatch the reference would stay out of step for the rest of the history: resynchronise it
+    -- with the model's contents (entries in order of last access), so that later lines are judged afresh
+    let r'' : LruRef.R := if sp != impl' && victimOnly then
+        { r' with items := (isortBy (fun (e : Model.Cache.Entry) => e.lastAccess) c'.store.h.data).map fun e => (e.key, e.value) }
+      else r'
+    ({ s with c := { c' with evicted := [] }, r := { r'' with evicted := [] } }, m, v)
   match toks with
   | ["reset", limit, mode, keys] =>
     let limit : Int := (limit.toNat?.getD 1 : Nat)
